@@ -155,7 +155,7 @@ func genC01(tier string, seed uint64, emit func(string)) {
 		// 2. random combinations of deviations (masking)
 		n := 6000
 		if tier == "thorough" {
-			n = 400000
+			n = 90000
 		}
 		for i := 0; i < n; i++ {
 			c := validClaims(kind, r)
